@@ -3,10 +3,14 @@
 usage: seed_recheck.py [--checks all|own|C03,C04] [seed-id ...]"""
 import json, os, subprocess, sys
 ROOT = '/verif'
+# evidence/replays of runs against a deliberately broken tree go here (git-ignored), never to /verif/evidence
+SCRATCH_OUT = os.path.join(ROOT, '.cache', 'seed_out')
 
 
-def sh(cmd, cwd=None, timeout=3000):
-    p = subprocess.run(cmd, shell=True, cwd=cwd, capture_output=True, text=True, timeout=timeout)
+def sh(cmd, cwd=None, timeout=3000, env=None):
+    e = dict(os.environ)
+    e.update(env or {})
+    p = subprocess.run(cmd, shell=True, cwd=cwd, env=e, capture_output=True, text=True, timeout=timeout)
     return p.returncode, p.stdout + p.stderr
 
 
@@ -32,7 +36,7 @@ def main():
             for c in man['checks']:
                 if c['property_id'] not in sel:
                     continue
-                rc, out = sh(c['quick_cmd'], cwd=ROOT)
+                rc, out = sh(c['quick_cmd'], cwd=ROOT, env={'H2VC_OUT_DIR': SCRATCH_OUT})
                 viol = [l for l in out.splitlines() if l.startswith('VIOLATION')]
                 obl = [l.strip() for l in out.splitlines() if l.strip().startswith('obligation ')]
                 caught[c['property_id']] = {'exit': rc, 'violations': viol[:5], 'obligations': obl[:5]}
